@@ -158,6 +158,46 @@ def line_cases(ctx, out, per_scheme):
                                          rendered=s1, rerendered=str(r2)))
 
 
+def custom_mixins(ctx, out):
+    """Mixin types synthesised by scheme inheritance beyond the built-in ones: a column redefined with another
+    (nullable) type.  Base and derived classes are exercised alternately in one process."""
+    import json as _json
+    import os
+    import tempfile
+    from maflib.column_types import get_column_types
+    from maflib.scheme_factory import build_schemes, load_all_scheme_data
+    rng = ctx.rng("mixins")
+    base_cols = [["Entrez_Gene_Id", "EntrezGeneId"], ["Depth", "NullableZeroBasedIntegerColumn"], ["Note", "NullableStringColumn"],
+                 ["Flag", "NullableYesOrNo"], ["Alleles", "NullableDnaString"], ["Ids", "SequenceOfIntegers"], ["Score", "NullableFloatColumn"]]
+    over = [["Entrez_Gene_Id", "NullableIntegerColumn"], ["Depth", "RequireNullValue"], ["Note", "StringColumn"], ["Flag", "RequireNullValue"],
+            ["Alleles", "DnaString"], ["Score", "RequireNullValue"]]
+    defs = [{"version": "m-1.0.0", "annotation-spec": "m-1.0.0", "extends": "None", "filtered": "None", "columns": base_cols},
+            {"version": "m-1.0.0", "annotation-spec": "m-1.0.0-derived", "extends": "m-1.0.0", "filtered": "None", "columns": over}]
+    with tempfile.TemporaryDirectory() as d:
+        paths = []
+        for k, df in enumerate(defs):
+            p = os.path.join(d, "m%d.json" % k)
+            _json.dump(df, open(p, "w"))
+            paths.append(p)
+        try:
+            schemes = build_schemes(load_all_scheme_data(paths, get_column_types()))
+        except Exception as e:  # noqa
+            out.notes.append("custom mixin schemes could not be built: %r" % e)
+            return
+    b, dv = schemes["m-1.0.0"](), schemes["m-1.0.0-derived"]()
+    for name, _t in base_cols:
+        pool = colcases.pool_for(b.column_class(name), rng)
+        for t in pool:
+            if any(ch in t for ch in SEPS):
+                continue
+            for sch, tag in ((b, "m-1.0.0"), (dv, "m-1.0.0-derived"), (b, "m-1.0.0")):
+                out.evaluations += 1
+                k = check_field(out, tag, name, t, sch.column_class(name))
+                if k == "accepted":
+                    out.nontrivial.add((tag, name, t))
+                out.distribution["mixin:" + k] += 1
+
+
 def float_laws(ctx, out):
     """The FloatHost assumptions on the graph of this run."""
     rng = ctx.rng("floats")
@@ -203,6 +243,7 @@ def run(ctx):
                 "implementation (the property only speaks about accepted texts); distinct = distinct (class, text) or (scheme, line)")
     field_cases(ctx, out, ctx.scale(1, 4))
     line_cases(ctx, out, ctx.scale(6, 60))
+    custom_mixins(ctx, out)
     float_laws(ctx, out)
     return out
 
